@@ -9,10 +9,12 @@ import (
 	"io"
 	"os"
 	"path/filepath"
+
 	"runtime"
 	"runtime/debug"
 	"strings"
 	"sync"
+	"sync/atomic"
 	"syscall"
 	"time"
 	"unsafe"
@@ -51,6 +53,7 @@ type worker struct {
 	outMu     sync.Mutex
 	watchSecs int
 	inCall    bool
+	outBytes  int64 // bytes of terminal output seen by the emulator (atomic)
 }
 
 func openPTY() (master, slave int, err error) {
@@ -186,6 +189,7 @@ func (w *worker) termLoop() {
 			}
 			w.term.Write(buf[:n])
 			w.mu.Unlock()
+			atomic.AddInt64(&w.outBytes, int64(n))
 		}
 		if err != nil && err != unix.EINTR && err != unix.EAGAIN {
 			return
@@ -229,43 +233,61 @@ func (w *worker) watchdog() {
 		if time.Since(time.Unix(0, last)) < time.Duration(w.watchSecs)*time.Second {
 			continue
 		}
-		buf := make([]byte, 1<<20)
-		buf = buf[:runtime.Stack(buf, true)]
-		cls := classifyHang(string(buf))
-		time.Sleep(300 * time.Millisecond)
-		buf2 := make([]byte, 1<<20)
-		buf2 = buf2[:runtime.Stack(buf2, true)]
-		cls2 := classifyHang(string(buf2))
-		if cls != cls2 {
-			// blocked in one sample and running in the other: keep the first, note both
-			cls = cls + "|" + cls2
+		// three samples of the Readline goroutine, 150 ms apart
+		var stacks [3]string
+		var first string
+		out0 := atomic.LoadInt64(&w.outBytes)
+		for i := range stacks {
+			buf := make([]byte, 1<<20)
+			buf = buf[:runtime.Stack(buf, true)]
+			if i == 0 {
+				first = string(buf)
+			}
+			stacks[i] = readlineGoroutine(string(buf))
+			time.Sleep(150 * time.Millisecond)
 		}
+		// terminal output produced while sampling proves the loop is going round
+		cls := classifyHang(stacks[:], atomic.LoadInt64(&w.outBytes) != out0)
+		buf := []byte(first)
 		w.send(&Trace{ID: job, Calls: []Call{{Outcome: "hung", Site: cls, Stack: trimStack(string(buf), 6000)}}})
 		os.Exit(3)
 	}
 }
 
-// classifyHang finds the goroutine running Shell.Readline and summarises its state.
-func classifyHang(all string) string {
+// readlineGoroutine extracts the stack of the goroutine running Shell.Readline.
+func readlineGoroutine(all string) string {
 	for _, g := range strings.Split(all, "\n\n") {
-		if !strings.Contains(g, "readline.(*Shell).Readline") {
+		if strings.Contains(g, "readline.(*Shell).Readline") {
+			return g
+		}
+	}
+	return ""
+}
+
+// classifyHang summarises samples of the Readline goroutine: identical blocked samples
+// are a deadlock at the innermost library function; changing samples are a spin, named
+// by the command being executed (callee of Shell.execute) or "main-loop" when the loop
+// itself goes round without ever reading input.
+func classifyHang(samples []string, producing bool) string {
+	type info struct{ state, fn, cmd, norm string }
+	var infos []info
+	for _, g := range samples {
+		if g == "" {
 			continue
 		}
 		lines := strings.Split(g, "\n")
-		state := ""
+		var in info
 		if i := strings.Index(lines[0], "["); i >= 0 {
-			state = strings.TrimSuffix(lines[0][i+1:], "]:")
-			if j := strings.Index(state, ","); j >= 0 {
-				state = state[:j]
+			in.state = strings.TrimSuffix(lines[0][i+1:], "]:")
+			if j := strings.Index(in.state, ","); j >= 0 {
+				in.state = in.state[:j]
 			}
 		}
-		fn := ""
 		var funcs []string
 		for _, l := range lines[1:] {
-			if strings.HasPrefix(l, "\t") {
-				continue
+			if !strings.HasPrefix(l, "\t") {
+				funcs = append(funcs, l)
 			}
-			funcs = append(funcs, l)
 		}
 		clean := func(f string) string {
 			if k := strings.LastIndex(f, "("); k > 0 {
@@ -276,27 +298,44 @@ func classifyHang(all string) string {
 		}
 		for _, l := range funcs {
 			if strings.Contains(l, "reeflective/readline") {
-				fn = clean(l)
+				in.fn = clean(l)
 				break
 			}
 		}
-		// for spins the sampled innermost frame varies: name the command instead
-		// (the callee of Shell.execute), which is stable
-		cmd := ""
 		for i, l := range funcs {
 			if strings.Contains(l, "readline.(*Shell).execute(") && i > 0 {
-				cmd = clean(funcs[i-1])
+				in.cmd = clean(funcs[i-1])
 			}
 		}
-		if state == "running" || state == "runnable" {
-			if cmd != "" {
-				fn = cmd
-			}
-			return fmt.Sprintf("spin@%s", fn)
+		var names []string
+		for _, f := range funcs {
+			names = append(names, clean(f))
 		}
-		return fmt.Sprintf("deadlock[%s]@%s", state, fn)
+		in.norm = in.state + "|" + strings.Join(names, ">")
+		infos = append(infos, in)
 	}
-	return "unknown"
+	if len(infos) == 0 {
+		return "unknown"
+	}
+	same := true
+	for _, in := range infos[1:] {
+		if in.norm != infos[0].norm {
+			same = false
+		}
+	}
+	blocked := infos[0].state != "running" && infos[0].state != "runnable"
+	if same && blocked && !producing {
+		return fmt.Sprintf("deadlock[%s]@%s", infos[0].state, infos[0].fn)
+	}
+	for _, in := range infos {
+		if in.cmd != "" {
+			return "spin@" + in.cmd
+		}
+	}
+	if same && !producing {
+		return "spin@" + infos[0].fn
+	}
+	return "spin@main-loop(never reads input)"
 }
 
 func trimStack(s string, n int) string {
@@ -525,6 +564,8 @@ func (w *worker) runJob(job *Job) (tr *Trace) {
 			}
 			return true
 		}
+	case "always":
+		sh.AcceptMultiline = func(line []rune) bool { return true }
 	case "paren":
 		sh.AcceptMultiline = func(line []rune) bool {
 			d := 0
